@@ -150,13 +150,13 @@ def evalExpr : Nat → Store → Nat → Expr → Res Value
           match rargs with
           | .error (.fuel, l) => (.error (.fuel, l), σ)
           | _ => (.error (.nonProcedure, f.loc), σ)
-    | .assign name ve _ =>
+    | .assign name ve loc =>
       match evalExpr fuel σ ρ ve with
       | (.error er, σ) => (.error er, σ)
       | (.ok v, σ) =>
         match σ.set ρ name v with
         | (true, σ) => (.ok .void, σ)
-        | (false, σ) => (.error (.unbound, none), σ)
+        | (false, σ) => (.error (.unbound, loc), σ)   -- `loc` is the target identifier's location
     | .lambda lam _ => (.ok (.closure lam ρ), σ)
     | .cond t c a _ =>
       match evalExpr fuel σ ρ t with
@@ -219,7 +219,7 @@ def applyLoop : Nat → Store → Value → List Value → Nat → Res Value
             | (.error er, σ) => (.error er, σ)
             | (.ok vs, σ) =>
               match procArity first with
-              | none => (.error (.nonProcedure, none), σ)
+              | none => (.error (.nonProcedure, f.loc), σ)
               | some _ => applyLoop fuel σ first vs env
       | _ => (.error (.panic "apply_procedure: not a procedure", none), σ)
 
